@@ -192,6 +192,7 @@ func c09R2(a *A, cd *codec) {
 	}
 	a.Extra["specialisations"] = len(specs)
 	a.Extra["specialisations_nontrivial"] = nontrivial
+	a.Extra["distinct_cases"] = nontrivial
 	if a.Tier == "thorough" {
 		a.exhaustive = true
 	}
